@@ -201,7 +201,7 @@ func Random(r *rand.Rand, o GenOpts) *Grammar {
 // one position along several call paths with different re-entry counts, which
 // is what context-sensitive cache reuse needs in order to matter.
 func MutualLR(r *rand.Rand) *Grammar {
-	n := 2 + r.Intn(2)
+	n := 2 + r.Intn(3)
 	g := New("abc", n)
 	rn := func() *Expr { return g.Rune(g.Alpha[r.Intn(len(g.Alpha))]) }
 	ref := func() *Expr { return g.Ref(r.Intn(n)) }
@@ -218,6 +218,9 @@ func MutualLR(r *rand.Rand) *Grammar {
 				alts = append(alts, g.Mk(OpSeqOf, g.Mk(OpOpt, rn()), ref(), rn()))
 			case 4:
 				alts = append(alts, g.Mk(OpSeqOf, ref(), ref()))
+			case 5:
+				// a nonterminal behind an optional NONTERMINAL prefix (Z? T): hidden left recursion between rules
+				alts = append(alts, g.Mk(OpSeqOf, g.Mk(OpOpt, ref()), ref()))
 			default:
 				kids := []*Expr{ref(), rn()}
 				if r.Intn(3) == 0 {
@@ -497,6 +500,16 @@ func SeedCorpus() []Seeded {
 		g.NTs[0] = g.Mk(OpSepBy1, g.Ref(1), g.Rune('c'))
 		g.NTs[1] = g.Mk(OpAny, g.Mk(OpSeqOf, g.Ref(1), g.Rune('b')), g.Rune('a'))
 	}, "a", "ab", "abcab", "acac", "abbcabca", "c", "")
+	// Z -> Z b | Z a | c ; T -> a | T S | S ; S -> Z | E b ; E -> Z? T | S   (declaration order matters: parser indices).
+	// Regression corpus entry: the minimal grammar an independent fault seeder needed to make a persistence break in
+	// IntSet.Union visible in parse results (seeded/S5-C01): curtailing sets of several parsers meet at one position and
+	// one cached set is the receiver of several unions. Random families did not reach this shape in 27k grammars.
+	add("layered Z/T/S/E (cached curtailing sets united several times)", "abc", 4, func(g *Grammar) {
+		g.NTs[0] = g.Mk(OpAny, g.Mk(OpSeqOf, g.Ref(0), g.Rune('b')), g.Mk(OpSeqOf, g.Ref(0), g.Rune('a')), g.Rune('c'))
+		g.NTs[1] = g.Mk(OpAny, g.Rune('a'), g.Mk(OpSeqOf, g.Ref(1), g.Ref(2)), g.Ref(2))
+		g.NTs[2] = g.Mk(OpAny, g.Ref(0), g.Mk(OpSeqOf, g.Ref(3), g.Rune('b')))
+		g.NTs[3] = g.Mk(OpAny, g.Mk(OpSeqOf, g.Mk(OpOpt, g.Ref(0)), g.Ref(1)), g.Ref(2))
+	}, "ab", "abb", "abbb", "a", "c", "cb", "cab", "cabb", "acb", "")
 	// hidden through Empty and Many: N -> ε N a | Many(b) N a | a
 	add("hidden through Empty/Many", "ab", 1, func(g *Grammar) {
 		g.NTs[0] = g.Mk(OpAny, g.Mk(OpSeqOf, g.Mk(OpEmpty), g.Ref(0), g.Rune('a')), g.Mk(OpSeqOf, g.Mk(OpMany, g.Rune('b')), g.Ref(0), g.Rune('a')), g.Rune('a'))
@@ -640,4 +653,55 @@ func Shapes2(n int) []func(g *Grammar) *Expr {
 		all = append(all, rec(k)...)
 	}
 	return all
+}
+
+
+// LayeredLR: one base nonterminal Z with two or three directly left-recursive alternatives (Z -> Z b | Z a | c) sits at
+// the LEFT EDGE of two or three other memoized nonterminals that are declared later and are recursive among themselves,
+// some of them reaching Z through an optional prefix (E -> Z? T | S). Curtailing-parser sets of several parsers then
+// meet at one position and are merged in different orders - which is what context-sensitive reuse of cached results
+// and the set operations behind it need in order to matter.
+func LayeredLR(r *rand.Rand) *Grammar {
+	n := 3 + r.Intn(2)
+	g := New("abc", n)
+	rn := func() *Expr { return g.Rune(g.Alpha[r.Intn(len(g.Alpha))]) }
+	// base
+	var zalts []*Expr
+	for k := 2 + r.Intn(2); k > 0; k-- {
+		zalts = append(zalts, g.Mk(OpSeqOf, g.Ref(0), rn()))
+	}
+	zalts = append(zalts, rn())
+	g.NTs[0] = g.Mk(OpAny, zalts...)
+	upper := func() *Expr { return g.Ref(1 + r.Intn(n-1)) }
+	anyRef := func() *Expr {
+		if r.Intn(3) == 0 {
+			return g.Ref(0)
+		}
+		return upper()
+	}
+	for i := 1; i < n; i++ {
+		var alts []*Expr
+		for k := 2 + r.Intn(2); k > 0; k-- {
+			switch r.Intn(8) {
+			case 0:
+				alts = append(alts, g.Ref(0))
+			case 1:
+				alts = append(alts, g.Mk(OpSeqOf, g.Mk(OpOpt, g.Ref(0)), upper()))
+			case 2:
+				alts = append(alts, g.Mk(OpSeqOf, anyRef(), upper()))
+			case 3:
+				alts = append(alts, g.Mk(OpSeqOf, anyRef(), rn()))
+			case 4:
+				alts = append(alts, upper())
+			case 5:
+				alts = append(alts, rn())
+			case 6:
+				alts = append(alts, g.Mk(OpSeqOf, g.Mk(OpOpt, upper()), anyRef()))
+			default:
+				alts = append(alts, g.Mk(OpSeqOf, g.Ref(0), rn()))
+			}
+		}
+		g.NTs[i] = g.Mk(OpAny, alts...)
+	}
+	return g
 }
